@@ -8,6 +8,7 @@ Regenerate after every commit to /repo that adds functions the rules name (pytho
 import os, sys
 VERIF = os.path.dirname(os.path.dirname(os.path.abspath(__file__)))
 sys.path.insert(0, os.path.join(VERIF, "engine"))
+os.environ["VERIF_NO_INLINE"] = "1"      # the table lists the program as written, before any helper is looked through
 from blue import extract as X, facts as F
 
 fd, info = X.extract(repo=os.environ.get("VERIF_REPO", "/repo"), scope="full")
